@@ -591,7 +591,7 @@ func (c *caseRun) client() {
 	if join > 0 {
 		c.tag("client:joined-after-start")
 	}
-	chunk := c.maxMsg
+	chunk := c.srv.config.MaxMessageSize // after ApplyDefaults
 	if !streamed {
 		chunk = 1000
 	}
@@ -627,8 +627,8 @@ func runCase(t *testing.T, seed uint64) vline {
 		ctx, cancel := context.WithCancel(context.Background())
 		defer cancel()
 		c.ctx = ctx
-		c.maxBatch = []int{1, 2, 3, 5, 8, 100}[r.intn(6)]
-		c.maxMsg = []int{1, 2, 3, 5, 100}[r.intn(5)]
+		c.maxBatch = []int{1, 2, 3, 5, 8, 100, 0, 1, 2}[r.intn(9)] // 0 = default (100)
+		c.maxMsg = []int{1, 2, 3, 5, 100, 0}[r.intn(6)] // 0 = default (100)
 		c.tag(fmt.Sprintf("cfg:maxBatch=%d", c.maxBatch))
 		c.tag(fmt.Sprintf("cfg:maxMsg=%d", c.maxMsg))
 		c.cache = snapcache.New(snapcache.Config{MaxBatchSize: c.maxBatch, WakeUpInterval: 1000 * time.Hour, Name: "felix"})
